@@ -119,8 +119,13 @@ def numpy_scalars(ctx):
     scalar types x both orders (placeholders) the observed result dtype / exception family must be the one of the
     array-array row of the regenerated table (looked up inside Coq)."""
     cases = []
+    if ctx.tier == "quick":
+        dts = [d for d in ALL if not d.startswith("n")] + ["nint64", "nfloat32", "nutf8", "nbool", "nuint8"]
+        nps = ["np:float64", "np:float32", "np:int64", "np:uint8", "np:bool", "np:utf8"]
+    else:
+        dts, nps = ALL, NPS
     for f in BINARY:
-        pairs = [[d, s_] for d in ALL for s_ in NPS] + [[s_, d] for d in ALL for s_ in NPS]
+        pairs = [[d, s_] for d in dts for s_ in nps] + [[s_, d] for d in dts for s_ in nps]
         cases.append({"id": f"nps-{f}", "kind": "binary", "func": f, "pairs": pairs})
     res = core.run_cases("harness.h_dtypes", cases, workers=14, per_case_timeout=900)
     rows, lines = [], []
@@ -162,7 +167,7 @@ def numpy_scalars(ctx):
         attrs = {"site": "numpy-scalar", "func": f, "args": [a, b], "observed": o.split("|")[0], "law": "numpy-scalar-as-0d-array"}
         return ctx.finding(attrs, f"{f}({a}, {b}) gives {o}: differs from the array-array row {f}({ref[0]}, {ref[1]}) — a NumPy scalar must promote like a 0-d array of its dtype",
                            {"call": f"ndonnx.{f}", "operands": [a, b], "observed": o, "how_to_replay": "tools/harness/h_dtypes.py kind=binary (placeholders of shape (2,), NumPy scalar as listed)"})
-    coqcorr.run(ctx, "NumpyScalars.v", f"T-exh (in Coq): NumPy scalar operands promote like 0-d arrays of their dtype — {len(lines)} calls (23 binary functions x 24 dtypes x 9 scalar types x 2 orders) against the array-array rows of the regenerated table",
+    coqcorr.run(ctx, "NumpyScalars.v", f"T-exh (in Coq): NumPy scalar operands promote like 0-d arrays of their dtype — {len(lines)} calls (23 binary functions x {len(dts)} dtypes x {len(nps)} NumPy scalar types x 2 orders; thorough: all 24 x 9) against the array-array rows of the regenerated table",
                 header, "nprow", lines, "np_ok", on_bad, timeout=1200)
     ctx.coverage["numpy_scalar_calls"] = len(lines)
 
